@@ -976,6 +976,15 @@ class Interp:
                 return Agg('closure@' + sp.group(1), vals)
             m = re.match(r'\{(?:async fn body of|async block@|async closure body of|coroutine@)\s*(.*)\}', head)
             if m:
+                # remember the type environment the coroutine was created under (its body is polled from elsewhere)
+                st.aux['coro_tenv'] = {**st.aux.get('coro_tenv', {}), head: dict(fr.tenv)}
+                pre = fr.fn.name + '::{closure#'
+                bodies = [n for n in self.p.by_prefix(pre) if n.count('::{closure#') == fr.fn.name.count('::{closure#') + 1
+                          and self.p.fns[n].args and self.p.fns[n].args[0][1].startswith('std::pin::Pin<&mut {')] if hasattr(self.p, 'by_prefix') else \
+                         [n for n in self.p.fns if n.startswith(pre) and n.count('::{closure#') == fr.fn.name.count('::{closure#') + 1
+                          and self.p.fns[n].args and self.p.fns[n].args[0][1].startswith('std::pin::Pin<&mut {')]
+                if len(bodies) == 1:
+                    st.aux['coro_body'] = {**st.aux.get('coro_body', {}), head: bodies[0]}
                 return Coro(head, bv(0, 32), vals, ())
             raise Unsupported('aggregate ' + head)
         if k == 'adt':
